@@ -31,6 +31,10 @@ pub struct Case {
     /// source and destination on tmpfs (/dev/shm): holes are reported by SEEK_DATA/SEEK_HOLE, FIEMAP is unsupported
     #[serde(default)]
     pub tmpfs: bool,
+    /// copy_file_range unavailable (1 EXDEV, 2 ENOSYS, 3 EPERM, injected by the supervisor): the user-space
+    /// fallback copies the data segments and must not write into the holes either
+    #[serde(default)]
+    pub cfr: u8,
 }
 
 pub fn strategy() -> BoxedStrategy<Case> {
@@ -47,8 +51,9 @@ pub fn strategy() -> BoxedStrategy<Case> {
         any::<bool>(),
         prop::bool::weighted(0.15),
         prop::bool::weighted(0.15),
+        prop_oneof![7 => Just(0u8), 1 => 1u8..4],
     )
-        .prop_map(|(segs, lead_hole_mib, skew, block, parblock, workers, prior_mib, sync, no_progress, tmpfs)| Case { segs, lead_hole_mib, skew, block, parblock, workers, prior_mib, sync, no_progress, tmpfs })
+        .prop_map(|(segs, lead_hole_mib, skew, block, parblock, workers, prior_mib, sync, no_progress, tmpfs, cfr)| Case { segs, lead_hole_mib, skew, block, parblock, workers, prior_mib, sync, no_progress, tmpfs, cfr })
         .boxed()
 }
 
@@ -140,9 +145,33 @@ pub fn judge(c: &Case, rec: &mut Rec) -> Verdict {
         return Verdict::Inconclusive(format!("materialise: {e}"));
     }
     let args = args_for(c);
-    let mut spec = RunSpec::xcp(args.clone(), &sb.root, &sb.out);
-    spec.timeout = std::time::Duration::from_secs(120);
-    let out = run_plain(&spec);
+    struct Out {
+        okf: bool,
+        timed_out: bool,
+    }
+    impl Out {
+        fn ok(&self) -> bool {
+            self.okf
+        }
+    }
+    let out = if c.cfr % 4 != 0 {
+        use crate::sup::*;
+        let errno = [0, libc::EXDEV, libc::ENOSYS, libc::EPERM][c.cfr as usize % 4];
+        let rule = Rule { sys: vec![Sys::CopyFileRange], path: PathSel::Sandbox, nth: Nth::All, action: Action::Errno(errno) };
+        let mut spec = super::c06::sup_spec(&sb, args.clone(), vec![rule], Sched::free());
+        spec.timeout = std::time::Duration::from_secs(180);
+        let o = Sup::run(spec);
+        if o.setup_error.is_some() {
+            return Verdict::Inconclusive(format!("supervisor {:?}", o.setup_error));
+        }
+        rec.class(format!("copy_file_range-unavailable|errno{}|{}|exit={}", errno, if c.parblock { "parblock" } else { "parfile" }, if o.ok() { "0" } else { "!0" }));
+        Out { okf: o.ok(), timed_out: o.timed_out }
+    } else {
+        let mut spec = RunSpec::xcp(args.clone(), &sb.root, &sb.out);
+        spec.timeout = std::time::Duration::from_secs(120);
+        let o = run_plain(&spec);
+        Out { okf: o.ok(), timed_out: o.timed_out }
+    };
     rec.eval(1);
     if out.timed_out {
         return Verdict::Inconclusive("watchdog".into());
@@ -258,7 +287,7 @@ impl Check for C11 {
         "C11"
     }
     fn rule(&self) -> String {
-        "proptest-generated sparse files on ext4 and (one case in seven) on tmpfs, where holes are reported by SEEK_DATA/SEEK_HOLE but FIEMAP is unsupported: 0-100 data segments of 1 B..256 KiB (non-zero bytes, at most 4 MiB in total) separated by holes of 1-64 MiB (apparent size up to ~1 GiB), leading / trailing / interleaved holes and entirely empty files, offsets aligned or skewed by 1..4095 bytes, more than 32 extents in a quarter of the cases; block size 1000 B, 4 KiB, 64 KiB, 1 MiB, 64 MiB, default or --no-progress; both drivers; workers 1-16; destination fresh or a pre-existing fully allocated file of 1-8 MiB; source fsync'ed or not. Oracle on exit 0: same length and bytes (hole-independent hash), and st_blocks*512 of the destination <= that of the source + max(64 KiB, 8 KiB x segments), which is below the smallest generated hole (1 MiB), so materialising even one hole trips it. Non-trivial: every exit-0 case (all have >= 1 hole); distinct by case hash.".into()
+        "proptest-generated sparse files on ext4 and (one case in seven) on tmpfs, where holes are reported by SEEK_DATA/SEEK_HOLE but FIEMAP is unsupported; in an eighth of the cases copy_file_range is unavailable (EXDEV/ENOSYS/EPERM injected) so that the user-space fallback does the copying: 0-100 data segments of 1 B..256 KiB (non-zero bytes, at most 4 MiB in total) separated by holes of 1-64 MiB (apparent size up to ~1 GiB), leading / trailing / interleaved holes and entirely empty files, offsets aligned or skewed by 1..4095 bytes, more than 32 extents in a quarter of the cases; block size 1000 B, 4 KiB, 64 KiB, 1 MiB, 64 MiB, default or --no-progress; both drivers; workers 1-16; destination fresh or a pre-existing fully allocated file of 1-8 MiB; source fsync'ed or not. Oracle on exit 0: same length and bytes (hole-independent hash), and st_blocks*512 of the destination <= that of the source + max(64 KiB, 8 KiB x segments), which is below the smallest generated hole (1 MiB), so materialising even one hole trips it. Non-trivial: every exit-0 case (all have >= 1 hole); distinct by case hash.".into()
     }
     fn assumptions(&self) -> Vec<String> {
         vec!["sandbox filesystem supports SEEK_HOLE and FIEMAP (probed at start; exit 2 otherwise)".into()]
@@ -293,6 +322,6 @@ impl Check for C11 {
         }
     }
     fn required_classes(&self, _tier: Tier) -> Vec<String> {
-        ["segs=0", "segs=1|", "segs=2-32", "segs=>32", "|lead|", "|trail|", "|inner|", "block<segment", "block>hole", "prior-allocated", "unaligned", "parblock|", "parfile|", "libfs|copy_file", "libfs|sparse", "on-tmpfs|parblock|segs=2|exit=0", "on-tmpfs|parfile|segs=2|exit=0"].iter().map(|s| s.to_string()).collect()
+        ["segs=0", "segs=1|", "segs=2-32", "segs=>32", "|lead|", "|trail|", "|inner|", "block<segment", "block>hole", "prior-allocated", "unaligned", "parblock|", "parfile|", "libfs|copy_file", "libfs|sparse", "on-tmpfs|parblock|segs=2|exit=0", "on-tmpfs|parfile|segs=2|exit=0", "copy_file_range-unavailable|errno18|parblock|exit=0", "copy_file_range-unavailable|errno18|parfile|exit=0"].iter().map(|s| s.to_string()).collect()
     }
 }
